@@ -235,7 +235,30 @@ def run(prog, rep, tier):
     check_end_deferral_dedup(prog, r4)
 
 
+def check_established_fed(prog, r):
+    """Every configured helper that re-establishes is reported to the deferral machine (RestartingInput::PeerEstablished with the
+    families it re-negotiated, possibly none).  If the report is made only when graceful restart was negotiated, a helper that comes
+    back without it stays pending and blocks completion until the timer -- or for ever when the timer was never started."""
+    pk = prog.one(r"rustybgpd::event::PeerSession::process_effects")
+    n = 0
+    for kk in [prog.body_key(pk)] + [k2 for k2 in prog.with_closures(prog.body_key(pk)) if k2 != prog.body_key(pk)]:
+        fv = view(prog, kk)
+        brs = branches(fv, Renderer(fv, depth=12, through_names=True))
+        for bi, si, st in fv.aggregates(re.compile(r"rustybgpd::gr::RestartingInput$"), "PeerEstablished"):
+            n += 1
+            cond = [g for g, l, h in flat_guards(fv, bi, brs, named=True) if "negotiated_gr" in (set(expr_fields(g)) | set(expr_vars(g)))
+                    and ((g[0] == "discr" and l == {"Some"}) or (g[0] == "call" and g[1].endswith("is_some") and l == {"true"}) or (g[0] == "call" and g[1].endswith("is_none") and l == {"false"}))]
+            if cond:
+                r.fail(prog.name(pk), "peer-established-needs-gr", "PeerEstablished is fed to the deferral machine only when the new session negotiated graceful restart (%s): a configured helper that "
+                       "re-establishes without it is never taken off `pending`, so its families stay deferred" % show(cond[0], 50), fv.loc(bi))
+            else:
+                r.ok("process_effects: PeerEstablished is fed for every re-established helper, with or without GR")
+    if n == 0:
+        r.unanalysable("process_effects never builds RestartingInput::PeerEstablished", view(prog, prog.body_key(pk)).loc())
+
+
 def check_glue(prog, r):
+    check_established_fed(prog, r)
     pk = prog.one(r"rustybgpd::event::process_restarting_outputs")
     bodies = [view(prog, k) for k in prog.with_closures(prog.body_key(pk))] + [view(prog, prog.body_key(pk))]
     r.analysed(prog.name(pk))
